@@ -138,3 +138,8 @@ def task_solve(task):
         inst["v"] = [str(sp.nsimplify(sp.sympify(x).subs(subs))) for x in res["vector"]]
         res["instances"].append(inst)
     return res
+from tasks_core import *  # noqa
+from tasks_bif import *  # noqa
+from tasks_inv import *  # noqa
+from tasks_sim import *  # noqa
+from tasks_parse import *  # noqa
